@@ -718,8 +718,9 @@ func Run(c *vh.Ctx) {
 	}
 	if len(c.ReplayRaw) > 0 {
 		var nr struct {
-			Neigh *neighCase `json:"neigh"`
-			Place *neighCase `json:"place"`
+			Neigh  *neighCase  `json:"neigh"`
+			Place  *neighCase  `json:"place"`
+			Clause *clauseCase `json:"clause"`
 		}
 		if json.Unmarshal(c.ReplayRaw, &nr) == nil && nr.Neigh != nil {
 			judgeNeigh(r, []neighCase{*nr.Neigh})
@@ -727,6 +728,10 @@ func Run(c *vh.Ctx) {
 		}
 		if nr.Place != nil {
 			judgePlace(r, []neighCase{*nr.Place})
+			return
+		}
+		if nr.Clause != nil {
+			judgeClause(r, []clauseCase{*nr.Clause})
 			return
 		}
 		var g gcase
@@ -770,6 +775,10 @@ func Run(c *vh.Ctx) {
 	np, pd := placement(r)
 	if !r.stopped {
 		c.Res.ExhaustiveWhat += fmt.Sprintf("; placements (harness-only: static single / comma list, return, break, continue, nested function declaration, yield inside every statement container — if / elseif / else, while, do-while, for, foreach, switch case / default, match-arm block, try / catch / finally — nested 1..%d deep exhaustively, deeper sampled; 5 calls incl. recursion): %d programs", pd, np)
+	}
+	ncl := clauses(r)
+	if !r.stopped {
+		c.Res.ExhaustiveWhat += fmt.Sprintf("; clause lists with repeated and loosely-equal keys (harness-only: switch over every label list of length 2..3 from {1, 2, '1', 'a', 1.0, call with effect = 1, = 2} and length 4 from {1,2,3} x every break / fall-through pattern x default or not; match over the same lists x every grouping into multi-condition arms; if / elseif chains over repeated tests with effects; conditions int, string, float, null, each list run 9 times): %d programs", ncl)
 	}
 	// seeded programs
 	n := c.N(1500, 60000)
